@@ -7,6 +7,7 @@ import CkbVerif.Lemmas.MMRCommit
 import CkbVerif.Lemmas.MMRSound
 import CkbVerif.Lemmas.MMRBatch
 import CkbVerif.Lemmas.MMRCompleteMain
+import CkbVerif.Lemmas.LightServer
 /-!
 # C19 — chain-root commitments, proofs and filter hashes match the chain they describe
 
@@ -408,6 +409,249 @@ theorem proof_complete_by_index [DecidableEq α] (merge : α → α → α) (s0 
   exact hsorted.imp fun h => leafIndexToPos_strictMono h
 
 example : (([(0, 'a'), (3, 'b'), (4, 'c')] : List (Nat × Char)).map (·.1)).Pairwise (· < ·) := by decide
+
+/-! ## light-client server: `GetLastStateProof` sampling, `GetBlocksProof` partition
+
+`Model/LightServer.lean` follows `util/light-client-protocol-server` as written. `f n` is the total
+difficulty of main-chain block `n`, strictly increasing; the snapshot answers `td n = some (f n)` up
+to the tip (`View`). -/
+section lightserver
+open CkbVerif.LightServer
+
+/-- **The difficulty search returns the first block at or above the wanted total difficulty.**
+`get_first_block_total_difficulty_is_not_less_than(start, end, min)` (a binary search the Rust code
+runs without a bound on its iterations; the model's fuel `end - start` is never exhausted): every
+answer `(n, d)` is a block of `[start, end)` (or `start` itself) with `d = td(n) ≥ min` and every
+block of `[start, n)` is below `min`; and an answer exists whenever `td(end - 1) ≥ min`. -/
+theorem lsp_first_block_not_less (td : TD) (f : Nat → Nat) (tip : Nat) (hv : View td f tip) (hm : SMono f)
+    (start end_ minD : Nat) (hs : start ≤ tip) (he : end_ - 1 ≤ tip) :
+    (∀ n d, firstNotLess td start end_ minD = some (n, d) →
+      d = f n ∧ start ≤ n ∧ n ≤ max start (end_ - 1) ∧ minD ≤ f n ∧ ∀ k, start ≤ k → k < n → f k < minD) ∧
+    (minD ≤ f (end_ - 1) → ∃ n, firstNotLess td start end_ minD = some (n, f n)) :=
+  ⟨fun n d h => firstNotLess_spec hv hm start end_ minD hs he n d h,
+   fun h => firstNotLess_total hv hm start end_ minD hs he h⟩
+
+example : firstNotLess (fun n => if n ≤ 9 then some (2 * (n + 1)) else none) 2 9 11 = some (5, 12) ∧
+    firstNotLess (fun n => if n ≤ 9 then some (2 * (n + 1)) else none) 2 9 12 = some (5, 12) ∧
+    firstNotLess (fun n => if n ≤ 9 then some (2 * (n + 1)) else none) 2 9 19 = none := by decide
+
+/-- **What a `GetLastStateProof` reply contains.** Whenever `GetLastStateProofProcess::execute`
+replies with headers (`lspNumbers … = reply l`, `last` on the main chain at or below the tip):
+* the served block numbers are strictly increasing and all below `last` — so the position list
+  handed to `gen_proof` is strictly increasing and inside `chain_root_mmr(last - 1)`
+  (`proof_complete_by_index` applies: see `lsp_reply_proof_verifies`);
+* nothing before `start - last_n` is served;
+* every block of the last-n window `[max(start, last - last_n), last)` is served;
+* if the client's start block is not on this chain (`start > 0`, start hash ≠ the main chain's block
+  at `start`), the `min(start, last_n)` blocks before `start` are served as well (fork detection). -/
+theorem lsp_reply_contents (td : TD) (f : Nat → Nat) (tip : Nat) (hv : View td f tip) (hm : SMono f)
+    (r : LspReq) (hl : r.last ≤ tip) (l : List Nat) (h : lspNumbers td r = .reply l) :
+    l.Pairwise (· < ·) ∧ (∀ n ∈ l, n < r.last ∧ r.start - r.lastN ≤ n) ∧
+    (∀ k, r.start ≤ k → r.last - r.lastN ≤ k → k < r.last → k ∈ l) ∧
+    (r.start ≠ 0 → r.startMatches = false → ∀ k, r.start - r.lastN ≤ k → k < r.start → k ∈ l) := by
+  unfold lspNumbers at h
+  split at h
+  · simp at h
+  · split at h
+    · simp at h
+    · split at h
+      · simp at h
+      · rename_i _ _ hsl
+        have hsl : r.start ≤ r.last := by omega
+        cases hc : lspCheck td r with
+        | some o =>
+          simp only [hc] at h
+          -- an early return of the request check is never a reply
+          exfalso
+          unfold lspCheck at hc
+          repeat' split at hc
+          all_goals (simp at hc)
+          all_goals (subst hc; simp at h)
+        | none =>
+          simp only [hc] at h
+          cases hsm : lspSample td r with
+          | banned => simp [hsm] at h
+          | err => simp [hsm] at h
+          | tip => simp [hsm] at h
+          | reply p =>
+            obtain ⟨sampled, lastNs⟩ := p
+            simp only [hsm] at h
+            split at h
+            · simp at h
+            · split at h
+              · simp at h
+              · simp only [Outcome.reply.injEq] at h
+                subst h
+                obtain ⟨bn, rfl, b1, b2, b3, sp, sm⟩ := lspSample_spec hv hm r hl hsl hc sampled lastNs hsm
+                have hre : ∀ x, x ∈ lspReorg r → r.start - r.lastN ≤ x ∧ x < r.start := by
+                  intro x hx
+                  unfold lspReorg at hx
+                  split at hx
+                  · simp at hx
+                  · rw [mem_rangeFrom] at hx; omega
+                have hrp : (lspReorg r).Pairwise (· < ·) := by
+                  unfold lspReorg
+                  split
+                  · exact List.Pairwise.nil
+                  · exact pairwise_rangeFrom _ _
+                refine ⟨?_, ?_, ?_, ?_⟩
+                · rw [List.pairwise_append, List.pairwise_append]
+                  refine ⟨⟨hrp, sp, ?_⟩, pairwise_rangeFrom _ _, ?_⟩
+                  · intro a ha b hb
+                    have := hre a ha; have := sm b hb; omega
+                  · intro a ha b hb
+                    rw [mem_rangeFrom] at hb
+                    rcases List.mem_append.1 ha with ha | ha
+                    · have := hre a ha; omega
+                    · have := sm a ha; omega
+                · intro n hn
+                  rcases List.mem_append.1 hn with hn | hn
+                  · rcases List.mem_append.1 hn with hn | hn
+                    · have := hre n hn; omega
+                    · have := sm n hn; omega
+                  · rw [mem_rangeFrom] at hn; omega
+                · intro k k1 k2 k3
+                  apply List.mem_append_right
+                  rw [mem_rangeFrom]; omega
+                · intro s0 smf k k1 k2
+                  apply List.mem_append_left
+                  apply List.mem_append_left
+                  unfold lspReorg
+                  simp only [s0, smf, false_or, Bool.false_eq_true, if_false]
+                  rw [mem_rangeFrom]; omega
+
+/-- non-vacuity: 20 blocks with total difficulty `2(n+1)`; the client is at block 3 of ANOTHER branch,
+asks for 2 last blocks, boundary 30, samples 9, 16 and 21 → blocks 1, 2 (fork detection), 4, 7, 10
+(first blocks reaching 9, 16, 21), 14.. (boundary block, total difficulty 30) up to 18 -/
+example : lspNumbers (fun n => if n ≤ 19 then some (2 * (n + 1)) else none)
+    ⟨true, 19, 3, false, 2, 30, [9, 16, 21]⟩ = .reply [1, 2, 4, 7, 10, 14, 15, 16, 17, 18] := by decide
+
+/-- **A `GetLastStateProof` reply always proves what it serves.** Composition with
+`proof_complete_by_index`: for the MMR over the blocks `0 .. last - 1` (pushed over any store
+content), the position list built from the served numbers — if non-empty — makes the model of
+`gen_proof` succeed, and the model of `MerkleProof::verify` accepts the proof with the served
+headers' digests against the chain root committed by the last block. -/
+theorem lsp_reply_proof_verifies [DecidableEq α] (merge : α → α → α) (s0 : Store α) (leaves : List α)
+    (td : TD) (f : Nat → Nat) (tip : Nat) (hv : View td f tip) (hm : SMono f)
+    (r : LspReq) (hl : r.last ≤ tip) (hlen : leaves.length = r.last) (l : List Nat) (hne : l ≠ [])
+    (h : lspNumbers td r = .reply l) (dflt : α) :
+    ∃ m root proof, pushAll merge ⟨0, s0⟩ leaves = some m ∧ getRoot merge m = some root ∧
+      bagD merge (specD merge leaves) = some root ∧
+      genProof merge m (l.map leafIndexToPos) = some proof ∧
+      verify merge m.size proof root (l.map fun n => (leafIndexToPos n, leaves.getD n dflt)) = some true := by
+  obtain ⟨hp, hb, -, -⟩ := lsp_reply_contents td f tip hv hm r hl l h
+  have := proof_complete_by_index merge s0 leaves (l.map fun n => (n, leaves.getD n dflt)) (by simpa using hne)
+    (by
+      intro c hc
+      obtain ⟨n, hn, rfl⟩ := List.mem_map.1 hc
+      have : n < leaves.length := by rw [hlen]; exact (hb n hn).1
+      simp [List.getD, this])
+    (by simpa [List.map_map, Function.comp_def] using hp)
+  simpa [List.map_map, Function.comp_def] using this
+
+/-- **`GetBlocksProof` partitions the request.** When `GetBlocksProofProcess::execute` replies with a
+proof, the request had no duplicates and did not contain the last hash, `found` are exactly the
+requested main-chain hashes and `missing` exactly the others, each in request order (together a
+partition of the request), and with the genesis block as the last block nothing is proved. -/
+theorem bp_partition (onMain isGenesis : Nat → Bool) (last : Nat) (ids : List Nat) (rep : BpReply)
+    (h : bpDecision onMain isGenesis last ids = .reply rep) :
+    ids ≠ [] ∧ ids.length ≤ 1000 ∧ onMain last = true ∧
+    rep.found = ids.filter onMain ∧ rep.missing = ids.filter (fun i => !onMain i) ∧
+    (∀ i, i ∈ ids ↔ (i ∈ rep.found ∨ i ∈ rep.missing)) ∧
+    (∀ i, i ∈ rep.found → onMain i = true) ∧ (∀ i, i ∈ rep.missing → onMain i = false) ∧
+    rep.found.length + rep.missing.length = ids.length ∧
+    (isGenesis last = true → rep.found = []) := by
+  unfold bpDecision at h
+  split at h
+  · simp at h
+  · rename_i hne
+    split at h
+    · simp at h
+    · rename_i hlim
+      split at h
+      · simp at h
+      · rename_i hon
+        split at h
+        · simp at h
+        · dsimp only at h
+          split at h
+          · simp at h
+          · rename_i hg
+            simp only [Outcome.reply.injEq] at h
+            subst h
+            simp only [Gen.LightServer.GET_BLOCKS_PROOF_LIMIT] at hlim
+            refine ⟨by intro e; simp [e] at hne, by omega, by simpa using hon, rfl, rfl, ?_, ?_, ?_, ?_, ?_⟩
+            · intro i
+              simp only [List.mem_filter]
+              cases onMain i <;> simp
+            · intro i hi; simp only [List.mem_filter] at hi; exact hi.2
+            · intro i hi; simp only [List.mem_filter] at hi; simpa using hi.2
+            · have key : ∀ l : List Nat,
+                  (l.filter onMain).length + (l.filter (fun i => !onMain i)).length = l.length := by
+                intro l
+                induction l with
+                | nil => rfl
+                | cons a t ih =>
+                  simp only [List.filter_cons, List.length_cons]
+                  cases onMain a <;> simp <;> omega
+              exact key ids
+            · intro hgen
+              simp only [hgen, true_and, Bool.not_eq_true'] at hg
+              cases hf : ids.filter onMain with
+              | nil => rfl
+              | cons a t => simp [hf] at hg
+
+example : bpDecision (fun i => i ≤ 5) (fun i => i = 0) 5 [3, 77, 1] = .reply ⟨[3, 1], [77]⟩ ∧
+    bpDecision (fun i => i ≤ 5) (fun i => i = 0) 5 [3, 5] = .banned ∧
+    bpDecision (fun i => i ≤ 5) (fun i => i = 0) 0 [3] = .banned ∧
+    bpDecision (fun i => i ≤ 5) (fun i => i = 0) 0 [9] = .reply ⟨[], [9]⟩ ∧
+    bpDecision (fun i => i ≤ 5) (fun i => i = 0) 9 [3] = .tip := by decide
+
+/-- **`GetTransactionsProof`: what a reply binds.** When `GetTransactionsProofProcess::execute` replies
+with a proof: the request was non-empty, within the limit and duplicate-free, the last hash is on the
+main chain; `missing` are exactly the requested hashes whose `get_transaction_info` block is not on the
+main chain (or that are unknown), in request order; every `(tx, index)` served in the filtered block
+of `b` is what COLUMN_TRANSACTION_INFO says (`txInfo tx = (b, index)` — the index the CBMT proof is
+built for); with the genesis block as the last block nothing is served.
+`_partial`: not proved here — every found transaction appears in exactly one group, and each group's
+block is on the main chain (both are compared with the real handler by the `tp` ops); the CBMT proof
+(`merkle-cbt`) is not modelled: the harness verifies it with the real verifier. -/
+theorem tp_reply_binds_tx_to_block_partial (onMain isGenesis : Nat → Bool) (txInfo : Nat → Option (Nat × Nat)) (last : Nat) (txs : List Nat)
+    (rep : TpReply) (h : tpDecision onMain isGenesis txInfo last txs = .reply rep) :
+    txs ≠ [] ∧ txs.length ≤ 1000 ∧ onMain last = true ∧ txs.eraseDups.length = txs.length ∧
+    rep.missing = txs.filter (fun t => !(match txInfo t with | some (b, _) => onMain b | none => false)) ∧
+    (∀ b es, (b, es) ∈ rep.blocks → ∀ x ∈ es, txInfo x.1 = some (b, x.2)) ∧
+    (isGenesis last = true → rep.blocks = []) := by
+  unfold tpDecision at h
+  split at h
+  · simp at h
+  · rename_i hne
+    split at h
+    · simp at h
+    · rename_i hlim
+      split at h
+      · simp at h
+      · rename_i hon
+        split at h
+        · simp at h
+        · rename_i hdup
+          dsimp only at h
+          split at h
+          · simp at h
+          · rename_i hg
+            simp only [Outcome.reply.injEq] at h
+            subst h
+            simp only [Gen.LightServer.GET_TRANSACTIONS_PROOF_LIMIT] at hlim
+            refine ⟨by intro e; simp [e] at hne, by omega, by simpa using hon, by simpa using hdup, rfl, ?_, ?_⟩
+            · exact group_fold_sound txInfo _ [] (by intro b es hm; simp at hm)
+            · intro hgen
+              simp only [hgen, true_and, Bool.not_eq_true'] at hg
+              simpa using hg
+
+example : tpDecision (fun b => b ≤ 5) (fun b => b = 0) (fun t => if t < 10 then some (t / 2, t % 2) else if t < 20 then some (9, 0) else none)
+    5 [4, 15, 5, 2, 30] = .reply ⟨[(2, [(4, 0), (5, 1)]), (1, [(2, 0)])], [15, 30]⟩ := by decide
+
+end lightserver
 
 /-! ## block filter -/
 
